@@ -21,8 +21,8 @@
 (*         implementation may follow either reading for each.              *)
 (*   m.kw  TRUE  = let / in are reserved words; FALSE = contextual         *)
 (*   m.ws  TRUE  = blanks allowed inside "[*]" and ".*"; FALSE = not       *)
-(*   m.len TRUE  = lenient literals (unpaired surrogate -> U+FFFD, raw     *)
-(*                 control characters kept, integers beyond 64 bits clamp) *)
+(*   m.len TRUE  = lenient literals (unpaired surrogate -> U+FFFD,         *)
+(*                 integers beyond 64 bits clamp)                          *)
 (***************************************************************************)
 EXTENDS Lexer, Literals
 
